@@ -656,10 +656,134 @@ func ndRandCuts(r *Rng, n, k int) []int {
 }
 
 // ---------------------------------------------------------------------------------------------------
+// panel behaviour classes shared by the net families (a class one family generates must not be missing from its
+// siblings: the same fault is then reported whichever property's check is run)
+// ---------------------------------------------------------------------------------------------------
+var ndAckWithPayload = ndFrame(ndMar(&rwp.OutboundMessage{FlowMessage: rwp.OutboundMessage_ACK,
+	Events: []*rwp.HWCEvent{{HWCID: 9, Binary: &rwp.BinaryEvent{Pressed: true}}}}))
+
+// every way a panel answers the probe: name -> (mode negotiated, handshake section)
+var ndReplyClasses = []struct {
+	name, mode string
+	reply      []byte
+}{
+	{"ack", "b", ndFrame(ndAck)},
+	{"ackpl", "b", ndAckWithPayload}, // acknowledge that carries an event as well
+	{"rdy", "a", []byte("RDY\n")},
+	{"sil", "a", nil}, // silence for the probe window
+	{"map", "a", []byte("map=1:2\n")},
+	{"err", "a", []byte("ErrorMsg=Panel is locked to another client\n")},
+	{"txt", "a", []byte("list\nBSY\n")},
+}
+
+func ndHandshakeOf(reply []byte) []string {
+	if reply == nil {
+		return []string{"conn", "p6", "h"}
+	}
+	return []string{"conn", "p6", ndW(reply), "h"}
+}
+
+// ndCrossRecs: for the delivery / containment families (cmd = net.c08 | net.c10): every reply class, followed by
+// traffic in the negotiated mode made of the classes of the sibling generators - short message, empty message (blank
+// line / frame without payload), a line or frame on a reader-buffer boundary (ndLongLineSizes; 4096 and 64 KiB frames),
+// dribbled header / cut line, an idle period longer than the in-frame timeout, silence inside an ASCII line (no fault) -
+// and runs whose connections change mode (ErrorMsg + close, ASCII with a long line, binary with a 64 KiB frame).
+func ndCrossRecs(cmd string, r *Rng, thorough bool) []ndRec {
+	recs := []ndRec{}
+	ev0, ev1 := ndEvent(21, true), ndEvent(22, false)
+	lineSizes := ndLongLineSizes
+	if !thorough { // quick: the 64 KiB lines are sent once per family (C08 (c), mode-change run below), see ndLineSizesFor
+		lineSizes = []int{4094, 4095, 4096, 4097, 9000, 20000}
+	}
+	frameSizes := []int{4092, 4096, 65532, 65536, 70000}
+	ascData := func(ln int, eol string) ([]string, [][]byte) {
+		long := ndLongLine(ln)
+		s := []byte("HWC#5=Down\r\n\n" + long + eol + "ping\n")
+		d := ndConcat(ndCutWrites(s, ndRandCuts(r, len(s), 2), 2), []string{ndS(2500), ndW([]byte("HWC#12")), ndS(2500), ndW([]byte("=Up\n"))})
+		return d, [][]byte{[]byte("HWC#5=Down"), {}, []byte(long), []byte("ping"), []byte("HWC#12=Up")}
+	}
+	binData := func(sz int) ([]string, [][]byte) {
+		big := ndMsgOfSize(sz)
+		fb := ndFrame(big)
+		d := ndConcat([]string{ndW(append(ndFrame(ev0), ndHeader(0)...))}, ndCutWrites(fb[:4], []int{1, 2, 3}, 3), []string{ndW(fb[4:]), ndS(2500)},
+			ndCutWrites(ndFrame(ev1), []int{2}, 300))
+		return d, [][]byte{ev0, {}, big, ev1}
+	}
+	i := 0
+	for _, rc := range ndReplyClasses {
+		nper := 2
+		if thorough {
+			nper = 5
+		}
+		for k := 0; k < nper; k++ {
+			i++
+			var d []string
+			var voc [][]byte
+			if rc.mode == "a" {
+				d, voc = ascData(lineSizes[(i*3+k)%len(lineSizes)], []string{"\n", "\r\n"}[i%2])
+			} else {
+				d, voc = binData(frameSizes[(i+k)%len(frameSizes)])
+			}
+			recs = append(recs, ndRecOf(cmd, []string{"mode=" + rc.mode, "end=300", ndVoc(voc)}, ndHandshakeOf(rc.reply), d))
+		}
+	}
+	// the boundary lines after a RDY in any case (quick tier: the other reply classes draw two sizes each)
+	for _, ln := range []int{4095, 4096, 65535, 65536} {
+		if !thorough && ln > 60000 {
+			continue
+		}
+		ls, vocL := ndLongLineStream(ln, "\n")
+		recs = append(recs, ndRecOf(cmd, []string{"mode=a", "end=250", ndVoc(vocL)}, ndHandshakeOf([]byte("RDY\n")), []string{ndW(ls)}))
+	}
+	// mode changes between the connections of one run
+	endC := []string{ndS(60), "c"}
+	for v := 0; v < 2; v++ {
+		ln := []int{65536, 4096}[v]
+		if v == 0 && !thorough && cmd == "net.c08" {
+			ln = 20000 // C08 (c) sends the 64 KiB lines of the quick tier
+		}
+		aD, aV := ascData(ln, "\n")
+		aD2, aV2 := ascData([]int{4097, 9000}[v], "\r\n")
+		bD, bV := binData([]int{65536, 4092}[v])
+		voc := append(append(append([][]byte{}, bV...), aV...), aV2...)
+		errC := ndConcat(ndHandshakeOf([]byte("ErrorMsg=Locked\n")), endC)
+		ascC := ndConcat(ndHandshakeOf([][]byte{[]byte("RDY\n"), nil}[v]), aD, endC)
+		binC := ndConcat(ndHandshakeOf([][]byte{ndFrame(ndAck), ndAckWithPayload}[v]), bD)
+		recs = append(recs, ndRecOf(cmd, []string{"mode=b", "modes=aab", "end=300", ndVoc(voc)}, errC, ascC, binC))
+		bin0 := ndConcat(ndHandshakeOf(ndFrame(ndAck)), bD, endC)
+		asc1 := ndConcat(ndHandshakeOf([]byte("map=1:2\n")), aD2)
+		recs = append(recs, ndRecOf(cmd, []string{"mode=b", "modes=ba", "end=300", ndVoc(voc)}, bin0, asc1))
+	}
+	return recs
+}
+
+// ---------------------------------------------------------------------------------------------------
 // C08
 // ---------------------------------------------------------------------------------------------------
 var ndAsciiLines = []string{"HWC#5=Down", "ping", "HWC#12=Up", "", "ack", "list", "_model=SK_VERIF", "_serial=123456",
 	"map=3:4", "HWC#7=Enc:-2", "BSY", "RDY", "HWC#33.4=Press", "_name=Some Panel Name", "HWC#40=Abs:512", "nack"}
+
+// lengths (without terminator) of the long ASCII lines every net family sends: one below / at / one above the sizes at
+// which a buffered line reader changes behaviour (4096 = bufio's default buffer, 65536 = bufio.MaxScanTokenSize), with
+// the terminator counted or not, and well beyond
+var ndLongLineSizes = []int{4094, 4095, 4096, 4097, 9000, 20000, 65534, 65535, 65536, 70000}
+
+// the quick tier's selection (the model's line reader is quadratic in the line length: ~11 s of driver time per 64 KiB
+// line): every size around bufio's 4096-byte buffer, and of the 64 KiB ones the exact boundary (65535 + LF) and 70000
+func ndLineSizesFor(thorough bool) []int {
+	if thorough {
+		return ndLongLineSizes
+	}
+	return []int{4094, 4095, 4096, 4097, 9000, 20000, 65535, 70000}
+}
+
+// "_model=A" CRLF, a topology line of ln bytes, "_serial=B" LF; the vocabulary of the three lines
+func ndLongLine(ln int) string { return "_panelTopology_svgbase=" + strings.Repeat("x", ln-23) }
+
+func ndLongLineStream(ln int, eol string) ([]byte, [][]byte) {
+	long := ndLongLine(ln)
+	return []byte("_model=A\r\n" + long + eol + "_serial=B\n"), [][]byte{[]byte("_model=A"), []byte(long), []byte("_serial=B")}
+}
 
 func ndJoin(frames [][]byte) []byte {
 	s := []byte{}
@@ -736,11 +860,20 @@ func genC08(r *Rng, n int, tier string) {
 	// ASCII panel that stays silent during the probe (2 s) and then talks
 	recs = append(recs, ndRecOf("net.c08", optsA, ndHandshake("s"), []string{ndW([]byte("HWC#5=Down\r\nping\n"))}))
 	// ASCII lines longer than bufio's 4096-byte buffer (e.g. a topology SVG on one line)
-	for _, ln := range []int{4097, 9000, 20000} {
-		long := "_panelTopology_svgbase=" + strings.Repeat("x", ln-23)
-		ls := []byte("_model=A\r\n" + long + "\n_serial=B\n")
-		vocL := [][]byte{[]byte("_model=A"), []byte(long), []byte("_serial=B")}
+	// and around the sizes at which buffered readers change behaviour (ndLongLineSizes: bufio.Reader's 4096-byte
+	// buffer, bufio.Scanner's 64 KiB token limit): the line, LF- or CRLF-terminated, between two short ones
+	for i, ln := range ndLineSizesFor(thorough) {
+		ls, vocL := ndLongLineStream(ln, []string{"\n", "\r\n"}[i%2])
 		recs = append(recs, ndRecOf("net.c08", []string{"mode=a", "end=250", ndVoc(vocL)}, ndHandshake("a"), ndCutWrites(ls, ndRandCuts(r, len(ls), 3), 2)))
+	}
+	// binary frames whose size (payload, payload + header) sits on the same boundaries
+	for _, sizes := range [][]int{{4091, 4092, 4095, 4096, 4097}, {65531, 65532, 65535, 65536, 65537, 70000}} {
+		fr := [][]byte{}
+		for _, sz := range sizes {
+			fr = append(fr, ndMsgOfSize(sz))
+		}
+		ls := ndJoin(fr)
+		recs = append(recs, ndRecOf("net.c08", []string{"mode=b", "end=300", ndVoc(fr)}, ndHandshake("b"), ndCutWrites(ls, ndRandCuts(r, len(ls), 4), 2)))
 	}
 	// (d) long streams: payload sizes 0, 1, 999-1001, 499 999, random cuts
 	nlong := 2
@@ -912,6 +1045,8 @@ func genC08(r *Rng, n int, tier string) {
 		allu = append(allu, c)
 	}
 	recs = append(recs, ndRecOf("net.c08", optsU, ndHandshake("s"), ndCutWrites(su, allu, 1)))
+	// (k) the classes of the sibling families: every reply class x traffic on the reader-buffer boundaries
+	recs = append(recs, ndCrossRecs("net.c08", r, thorough)...)
 	_ = n
 	ndEmitBatch(recs)
 }
@@ -1188,6 +1323,27 @@ func genC10(r *Rng, n int, tier string) {
 			}
 		}
 	}
+	// (9) the classes of the sibling families: every reply class x traffic on the reader-buffer boundaries, silence
+	// inside an ASCII line, mode changes between connections: nothing here is a fault, no connection may be dropped
+	recs = append(recs, ndCrossRecs("net.c10", r, thorough)...)
+	// (10) the faults of this family behind every BINARY reply class and after a connection that spoke ASCII
+	for i, rc := range ndReplyClasses {
+		if rc.mode != "b" {
+			continue
+		}
+		hs := ndHandshakeOf(rc.reply)
+		d := []string{ndW(ndFrame(good[0])), ndW(append(ndHeader(500000), tail2...)), ndS(300), ndW(tail2), ndS(900)}
+		recs = append(recs, ndRecOf("net.c10", []string{"mode=b", "end=400", ndVoc(voc)}, hs, d, next))
+		d = []string{ndW(ndFrame(good[0])), ndW(f40[:3+17*i]), ndS(3000), "c"}
+		recs = append(recs, ndRecOf("net.c10", []string{"mode=b", "end=400", ndVoc(voc)}, hs, d, next))
+	}
+	{
+		ls, vocL := ndLongLineStream(4096, "\n")
+		ascC := ndConcat(ndHandshakeOf([]byte("RDY\n")), []string{ndW(ls), ndS(60), "c"})
+		over := ndConcat(ndHandshake("b"), []string{ndW(ndFrame(good[0])), ndW(append(ndHeader(500000), tail2...)), ndS(1300)})
+		vv := append(append([][]byte{}, voc...), vocL...)
+		recs = append(recs, ndRecOf("net.c10", []string{"mode=b", "modes=abb", "end=400", ndVoc(vv)}, ascC, over, next))
+	}
 	_ = n
 	ndEmitBatch(recs)
 }
@@ -1216,8 +1372,97 @@ func ndInMsg(r *Rng, id uint32, kind int) *rwp.InboundMessage {
 	}
 }
 
+// messages without an ASCII representation (the converter gives no line for them); in binary mode each is a frame
+func ndLinelessMsgs() []*rwp.InboundMessage {
+	return []*rwp.InboundMessage{
+		{},                        // empty message: a frame without payload in binary mode
+		{Command: &rwp.Command{}}, // command with nothing set
+		{States: []*rwp.HWCState{{HWCIDs: []uint32{5, 6}}}},                       // state with ids but no content
+		{States: []*rwp.HWCState{{}}},                                             // state without ids
+		{States: []*rwp.HWCState{{HWCMode: &rwp.HWCMode{State: rwp.HWCMode_ON}}}}, // content but no ids
+	}
+}
+
+// bytes a list puts on the wire in the given mode
+func ndWireLen(mode string, msgs []*rwp.InboundMessage) int {
+	t := 0
+	if mode == "a" {
+		for _, l := range rawpanellib.InboundMessagesToRawPanelASCIIstrings(msgs) {
+			t += len(l) + 1
+		}
+	} else {
+		for _, m := range msgs {
+			b, _ := proto.Marshal(m)
+			t += 4 + len(b)
+		}
+	}
+	return t
+}
+
+func ndMarItems(msgs []*rwp.InboundMessage) [][]byte {
+	items := [][]byte{}
+	for _, m := range msgs {
+		b, _ := proto.Marshal(m)
+		items = append(items, b)
+	}
+	return items
+}
+
 func genC09(r *Rng, n int, tier string) {
 	recs := []ndRec{}
+	// NON-EMPTY lists that convert to zero ASCII lines (one such message, several, all kinds), empty lists, and lists in
+	// which only some messages have lines, between ordinary submissions; both modes; one and two submitters; with and
+	// without traffic from the panel.  Nothing but the converter's lines (binary: one frame per message) may reach the panel.
+	ll := ndLinelessMsgs()
+	for si, rc := range ndReplyClasses {
+		mode := rc.mode
+		total := 6
+		if mode == "a" {
+			total++
+		}
+		subSecs := [][]string{}
+		for g := 0; g <= si%2; g++ {
+			toks := []string{"sub", "h"}
+			lists := [][]*rwp.InboundMessage{
+				{ndInMsg(r, uint32(3000+g*100), 1)},
+				{ll[(si+g)%len(ll)]},
+				{},
+				{ndInMsg(r, uint32(3001+g*100), 0)},
+				{ll[1], ll[2]},
+				ll,
+				{ll[0], ndInMsg(r, uint32(3002+g*100), 4), ll[3]},
+				{ll[(si+g+2)%len(ll)]},
+				{ndInMsg(r, uint32(3003+g*100), 3)},
+			}
+			if si >= 5 { // only line-less lists: whatever arrives at the panel belongs to no line
+				lists = [][]*rwp.InboundMessage{{ll[0]}, {ll[1], ll[2]}, ll, {ll[4]}}
+			}
+			for i, l := range lists {
+				total += ndWireLen(mode, l)
+				toks = append(toks, "m"+ndItems(ndMarItems(l)))
+				if (i+si)%3 == 0 {
+					toks = append(toks, ndS(1+r.Intn(40)))
+				}
+			}
+			subSecs = append(subSecs, toks)
+		}
+		// every reply class; meanwhile the panel sends a short message, an empty one and one on a reader-buffer boundary
+		ptoks := ndHandshakeOf(rc.reply)
+		voc := [][]byte{}
+		if si%3 != 2 {
+			if mode == "a" {
+				long := ndLongLine([]int{4095, 4096, 9000}[si%3])
+				voc = append(voc, []byte("HWC#7=Down"), []byte{}, []byte(long))
+				ptoks = append(ptoks, ndW([]byte("HWC#7=Down\n\r\n"+long+"\n")))
+			} else {
+				bigf := ndMsgOfSize([]int{4092, 65536}[si%2])
+				voc = append(voc, ndEvent(7, true), []byte{}, bigf)
+				ptoks = append(ptoks, ndW(append(ndFrame(ndEvent(7, true)), ndHeader(0)...)), ndW(ndFrame(bigf)))
+			}
+		}
+		ptoks = append(ptoks, fmt.Sprintf("p%d:3000", total), ndS(400)) // stray bytes written after the last line are still seen
+		recs = append(recs, ndRecOf("net.c09", []string{"mode=" + mode, "end=150", ndVoc(voc)}, append([][]string{ptoks}, subSecs...)...))
+	}
 	nscripts := 24
 	if tier == "thorough" {
 		nscripts = 400
@@ -1259,6 +1504,9 @@ func genC09(r *Rng, n int, tier string) {
 						kind = 5
 					}
 					m := ndInMsg(r, uint32(1+g*100000+i*1000+j*2), kind)
+					if r.Chance(8) || (nm == 1 && r.Chance(30)) { // a message without an ASCII representation
+						m = ll[r.Intn(len(ll))]
+					}
 					msgs = append(msgs, m)
 					b, _ := proto.Marshal(m)
 					items = append(items, b)
@@ -1496,10 +1744,10 @@ func genC12(r *Rng, n int, tier string) {
 	}
 	// the reply classes the property names, for both entry points …
 	named := []rep{
-		{"ack", ndFrame(ndAck)},                      // acknowledge frame
-		{"rdy", []byte("RDY\n")},                     // ASCII ready word
-		{"rdy+", []byte("RDY\nmap=1:2\n")},           // ready word with more behind it
-		{"map", []byte("map=12:34\n")},               // map line
+		{"ack", ndFrame(ndAck)},                     // acknowledge frame
+		{"rdy", []byte("RDY\n")},                    // ASCII ready word
+		{"rdy+", []byte("RDY\nmap=1:2\n")},          // ready word with more behind it
+		{"map", []byte("map=12:34\n")},              // map line
 		{"maps", []byte("map=1:1\nmap=2:2\nRDY\n")}, // several map lines
 	}
 	// … and for the reconnecting client: any other text reply, with or without an error message
@@ -1514,9 +1762,9 @@ func genC12(r *Rng, n int, tier string) {
 	}
 	// replies for which the property fixes no verdict (compared with the model, not judged; kept away from the window's end)
 	unnamedClient := []rep{
-		{"frame-ping", ndFrame(ndPingOut)},                           // another well-formed frame
-		{"short", []byte{1, 2}},                                      // short, not text
-		{"mismatch", []byte{9, 0, 0, 0, 8, 2}},                       // header does not match the byte count
+		{"frame-ping", ndFrame(ndPingOut)},                            // another well-formed frame
+		{"short", []byte{1, 2}},                                       // short, not text
+		{"mismatch", []byte{9, 0, 0, 0, 8, 2}},                        // header does not match the byte count
 		{"two-frames", append(ndFrame(ndAck), ndFrame(ndPingOut)...)}, // two frames in one segment
 	}
 	unnamedDetector := []rep{
@@ -1685,6 +1933,27 @@ func genC12(r *Rng, n int, tier string) {
 					toks = append(toks, ndS(d))
 				}
 				toks = append(toks, ndW(sp.rep[:sp.k]), "s300", ndW(sp.rep[sp.k:]), "s150")
+				recs = append(recs, ndRec{cmd, append([]string{"end=250"}, toks...)})
+			}
+		}
+		// a named reply with traffic of the negotiated mode right behind it (own segment, 40 ms later): a line / frame on
+		// a reader-buffer boundary, an empty message; the verdict and what the panel receives do not depend on it
+		for i, rp := range []rep{named[0], named[1], named[3], namedClient[0], {"ackpl", ndAckWithPayload}} {
+			if cmd == "net.c12d" && i >= 3 {
+				continue
+			}
+			var behind []byte
+			if rp.name == "ack" || rp.name == "ackpl" {
+				behind = append(ndHeader(0), ndFrame(ndMsgOfSize([]int{4092, 65536}[i%2]))...)
+			} else {
+				ln := []int{4095, 4096, 9000}[i%3]
+				if thorough {
+					ln = 65535
+				}
+				behind = []byte("\n" + ndLongLine(ln) + "\nping\n")
+			}
+			for _, d := range []int{0, 1200} {
+				toks := append(one(rp.b, d, false, false), "s40", ndW(behind), "s150")
 				recs = append(recs, ndRec{cmd, append([]string{"end=250"}, toks...)})
 			}
 		}
